@@ -246,11 +246,17 @@ func (o *structFieldsJSON) Get(key string) (json.RawMessage, bool) {
 func (o *structFieldsJSON) Delete(key string) {
 	delete(o.Fields, key)
 
-	for i, existing := range o.Keys {
-		if existing == key {
-			o.Keys = append(o.Keys[:i], o.Keys[i+1:]...)
+	// note: a JSON object may contain the same key more than once, in
+	// which case it appears in Keys multiple times.
+	keys := o.Keys[:0]
+
+	for _, existing := range o.Keys {
+		if existing != key {
+			keys = append(keys, existing)
 		}
 	}
+
+	o.Keys = keys
 }
 
 func (o *structFieldsJSON) ToJSON() ([]byte, error) {
